@@ -2,6 +2,10 @@
 
 // Contracts for package certs, read by the verification-condition generator in
 // /verif (govc).  Comment-only.
+//
+// Vocabulary: splithost(id) is the host part net.SplitHostPort yields for the
+// string with identity id; pemnotafter(pem) the NotAfter of the certificate a PEM
+// block encodes.
 
 package certs
 
@@ -9,4 +13,26 @@ package certs
 // outside this package (the certificate store and the CA key).
 //@ func CertAuthority.GetCertForHost
 //@   trusted
-//@   assigns certs. syncmap.
+//@   assigns certs. syncmap. map_map_string_Ptls.Certificate
+
+// Out of the verifier's reach (crypto/x509 template and signing): trusted, with a
+// bounded test standing in (see /verif/bounded): on success the two PEM blocks are a
+// certificate for exactly the given names, valid from now for hoursValid hours, signed
+// by the CA, and its private key.
+//@ func PrivateCA.createCert
+//@   trusted
+//@   pure
+//@   ensures err == nil ==> len(cert) > 0 && len(priv) > 0 && pemnotafter(cert) >= old(now) + hoursValid * 3600000000000
+
+// A certificate is looked up under the host part of host:port; a stored one is handed
+// out again (the same object) while it is valid; an expired one is dropped and replaced;
+// a new one is made for exactly that host, for 240 hours, and stored under the host.
+//@ props C11 C16
+//@ func PrivateCA.GetCertForHost
+//@   nopanic
+//@   requires ca != nil && ca.certs != nil && ca.certs.ma != nil
+//@   requires forall k key :: in(ca.certs.ma, k) ==> ca.certs.ma[k] != nil && ca.certs.ma[k].Leaf != nil
+//@   ghost callsite-requires [C11] createCert len(arg_dnsNames) == 1 && sid(arg_dnsNames[0]) == splithost(sid(old(host))) && arg_hoursValid == 240
+//@   ensures [C11] result1 == nil && old(in(ca.certs.ma, splithost(sid(host)))) && old(ca.certs.ma[splithost(sid(host))].Leaf.NotAfter) >= now ==> result0 == old(ca.certs.ma[splithost(sid(host))])
+//@   ensures [C11] result1 == nil ==> result0 != nil && in(ca.certs.ma, splithost(sid(old(host)))) && ca.certs.ma[splithost(sid(old(host)))] == result0
+//@   ensures [C11] result1 == nil ==> result0.Leaf != nil && result0.Leaf.NotAfter >= old(now)
